@@ -1039,6 +1039,63 @@ def extract_mixture(mod):
     return "\n\n".join(out) + "\n"
 
 
+def extract_mixture_print(mod):
+    """`Mixture.generate_string(extension)`: if-chain returning f-strings / constants over the two mass fields"""
+    cls = _find_class(mod, "Mixture")
+    props = _mix_props(cls)
+    fn = _find_func(cls.body, "generate_string")
+    params = [a.arg for a in fn.args.args]
+    if len(params) != 2:
+        raise Unsupported("Mixture.generate_string(self, extension) expected")
+    ext = params[1]
+
+    def field(e):
+        if isinstance(e, ast.Attribute) and isinstance(e.value, ast.Name) and e.value.id == "self":
+            f = _MIX_FIELD.get(e.attr) or props.get(e.attr)
+            if f in ("abs", "rel"):
+                return f
+        raise Unsupported("Mixture.generate_string reads something else than the two mass fields")
+
+    def text(e):
+        if isinstance(e, ast.Constant) and isinstance(e.value, str):
+            return _lean_str(e.value) + ".toList"
+        if isinstance(e, ast.JoinedStr):
+            parts = []
+            for v in e.values:
+                if isinstance(v, ast.Constant) and isinstance(v.value, str):
+                    parts.append(_lean_str(v.value) + ".toList")
+                elif isinstance(v, ast.FormattedValue) and v.conversion == -1 and v.format_spec is None:
+                    parts.append(f"(match m.{field(v.value)} with | some x => numStr x | none => \"None\".toList)")
+                else:
+                    raise Unsupported("format specification in Mixture.generate_string")
+            return " ++ ".join(parts) if parts else "[]"
+        raise Unsupported("string expression in Mixture.generate_string: " + ast.dump(e)[:80])
+
+    def stmts(ss):
+        if not ss:
+            raise Unsupported("Mixture.generate_string may fall off its end")
+        s0, rest = ss[0], ss[1:]
+        if isinstance(s0, ast.Expr) and isinstance(s0.value, ast.Constant):
+            return stmts(rest)
+        if isinstance(s0, ast.Return) and s0.value is not None:
+            return text(s0.value)
+        if isinstance(s0, ast.If):
+            t = s0.test
+            if isinstance(t, ast.Name) and t.id == ext:
+                c = "ext"
+            elif isinstance(t, ast.Compare) and len(t.ops) == 1 and isinstance(t.ops[0], (ast.Is, ast.IsNot)) and isinstance(t.comparators[0], ast.Constant) \
+                    and t.comparators[0].value is None:
+                c = f"m.{field(t.left)}.{'isNone' if isinstance(t.ops[0], ast.Is) else 'isSome'}"
+            else:
+                raise Unsupported("condition in Mixture.generate_string: " + ast.dump(t)[:80])
+            other = stmts(list(s0.orelse) + rest) if s0.orelse else stmts(rest)
+            return f"(if {c} then {stmts(list(s0.body) + rest)} else {other})"
+        raise Unsupported("statement in Mixture.generate_string: " + ast.unparse(s0)[:80])
+
+    return ("/-- `Mixture.generate_string(extension)` (mixture.py): the if-chain and the f-strings as written; a float is formatted by `repr` (`numStr`) -/\n"
+            "def printMixX (m : P.PMix) (ext : Bool) : Py.Str :=\n  open P in " + stmts(list(fn.body)) + "\n")
+
+
 def _part_bond():
     bond = _parse("bond.py")
     return extract_is_compatible(bond) + "\n" + extract_order_chain(bond) + "\n" + extract_compat_text(bond)
@@ -1053,7 +1110,7 @@ PARTS = [
     ("FFTables", "fftables", extract_ff_tables),
     ("Choose", "choose", lambda: extract_choose(_parse("core.py")) + "\n" + extract_compat_ids(_parse("core.py"))),
     ("Loops", "loops", extract_loops),
-    ("Mixture", "mixture", lambda: extract_mixture(_parse("mixture.py"))),
+    ("Mixture", "mixture", lambda: extract_mixture(_parse("mixture.py")) + "\n" + extract_mixture_print(_parse("mixture.py"))),
 ]
 
 
@@ -1076,7 +1133,7 @@ def generate(write_pinned=False):
                 os.makedirs(PINNED_DIR, exist_ok=True)
                 with open(os.path.join(PINNED_DIR, name + ".lean"), "w") as fh:
                     fh.write(text)
-        files[mod] = ("import GBS.Model.Mixture\n" if name == "mixture" else "import GBS.Extracted.Bond\n" if name == "choose" else "") + (HEADER % (name + (" — STALE: text of the last good tree" if name in stale else ""))) + text + "\nend GBS\n"
+        files[mod] = ("import GBS.Model.Mixture\nimport GBS.Model.Parse\n" if name == "mixture" else "import GBS.Extracted.Bond\n" if name == "choose" else "") + (HEADER % (name + (" — STALE: text of the last good tree" if name in stale else ""))) + text + "\nend GBS\n"
     return files, stale
 
 
